@@ -304,11 +304,31 @@ fn classify_ok_diffs(op: &Op, verdict: &Verdict, pre: &MStore, expected: &MStore
         let t0 = tgt.get(0).cloned().unwrap_or_default();
         let (a, b) = (origin_tag(pre, n), origin_tag(pre, &t0));
         let src_of = |x: &str| pre.get(x).and_then(|bd| bd.src.clone());
-        // which of the two was derived from the other (or are both derived from the same variable)?
-        let derived: Option<String> = if src_of(n).as_deref() == Some(t0.as_str()) { Some(a.clone()) }
-          else if src_of(&t0).as_deref() == Some(n.as_str()) { Some(b.clone()) }
-          else if src_of(n).is_some() && src_of(n) == src_of(&t0) { Some(if a.ends_with("<-var") { b.clone() } else { a.clone() }) }
-          else { None };
+        // How are the two names related in the model? Follow the derivation links (each name -> the
+        // variable its defining expression read) in both directions; several hops are common
+        // (`x := p.4; ~y := x.x; y = 100` reaches p through two accesses). The tag is the least
+        // excusable link on the path: a link that must copy (define from a variable, destructure,
+        // index read) outranks the access links, whose sharing is a recorded finding — so a recorded
+        // finding never absorbs a chain that needs a copying define to have shared its source.
+        let derived: Option<String> = {
+          let names: Vec<&String> = pre.keys().collect();
+          let mut adj: BTreeMap<&str, Vec<(&str, String)>> = BTreeMap::new();
+          for u in &names { if let Some(sv) = src_of(u) { if let Some(w) = names.iter().find(|x| ***x == sv) { let o = origin_tag(pre, u); adj.entry(u.as_str()).or_default().push((w.as_str(), o.clone())); adj.entry(w.as_str()).or_default().push((u.as_str(), o)); } } }
+          // breadth-first from the target to the changed name, remembering the link labels on the way
+          let mut seen: BTreeMap<&str, Vec<String>> = BTreeMap::new();
+          let mut queue: std::collections::VecDeque<&str> = Default::default();
+          if let Some(start) = names.iter().find(|x| ***x == t0) { seen.insert(start.as_str(), vec![]); queue.push_back(start.as_str()); }
+          let mut found: Option<Vec<String>> = None;
+          while let Some(u) = queue.pop_front() {
+            if u == n.as_str() { found = seen.get(u).cloned(); break; }
+            let here = seen.get(u).cloned().unwrap_or_default();
+            for (w, o) in adj.get(u).cloned().unwrap_or_default() { if !seen.contains_key(w) { let mut pth = here.clone(); pth.push(o); seen.insert(w, pth); queue.push_back(w); } }
+          }
+          found.and_then(|labels| {
+            let rank = |o: &String| if o.ends_with("<-var") { 0 } else if o.starts_with("destructure") { 1 } else if o.ends_with("<-var-idx") { 2 } else if o.ends_with("<-field") || o.ends_with("<-tuple-elem") || o.ends_with("<-map-get") { 4 } else { 3 };
+            labels.into_iter().min_by_key(|o| rank(o))
+          })
+        };
         let via = match &derived {
           Some(o) if o.ends_with("<-field") => "via-field-access",
           Some(o) if o.ends_with("<-tuple-elem") => "via-tuple-element-access",
